@@ -305,7 +305,9 @@ def subprocess_replay(script, case):
     try:
         p = subprocess.run([PY, script, '--replay', path], capture_output=True, text=True, timeout=600)
         out = (p.stdout + p.stderr).strip().splitlines()
-        return p.returncode == 1, (out[-1] if out else '') + ' [exit %d]' % p.returncode
+        # reproduced only when the replay itself says so: a crash of the replay code (traceback, exit 1) is not a reproduction
+        said = any(line.startswith('REPRODUCED') for line in out)
+        return (p.returncode == 1 and said), (out[-1] if out else '') + ' [exit %d]' % p.returncode
     finally:
         try:
             os.remove(path)
